@@ -310,12 +310,23 @@ def run(pid, tier, seed, replay, t0, evidence_path):
     search_tier = 'thorough' if proof_errors else tier
     ctx = Ctx(pid, search_tier, seed, facts, drv)
     ctx.golden_diffs = golden_diffs
+    harness_exc = None
     try:
         if replay:
             body = json.load(open(replay))
             prop.replay(ctx, body)
         else:
-            prop.run(ctx)
+            try:
+                prop.run(ctx)
+            except (Infra, subprocess.TimeoutExpired, BrokenPipeError, KeyboardInterrupt):
+                raise
+            except Exception:  # noqa: BLE001
+                # the implementation behaved in a way the correspondence harness cannot digest (a result without a
+                # description, a value of an unknown kind, ...): the correspondence is broken, which is reported below -
+                # with the concrete inputs recorded so far, or as no-failing-input-found
+                harness_exc = traceback.format_exc()
+                if 'model driver died' in harness_exc:
+                    raise       # infrastructure (the driver process)
     finally:
         drv.close()
 
@@ -360,6 +371,16 @@ def run(pid, tier, seed, replay, t0, evidence_path):
         if nviol >= 5:
             break
 
+    if harness_exc and exit_code == 0:
+        body = {'property': pid, 'kind': 'correspondence-no-longer-checks', 'harness_exception': harness_exc[-4000:],
+                'searched': {'tier': search_tier, 'evaluations': ctx.evaluations, 'seed': seed},
+                'note': 'the correspondence harness could not process what the implementation returned; no concrete failing input '
+                        'was recorded before that'}
+        path = write_replay(pid, 0, body)
+        print('VIOLATION property=%s replay=%s no-failing-input-found' % (pid, path))
+        exit_code = 1
+        nviol += 1
+
     if proof_errors and exit_code == 0:
         body = {'property': pid, 'kind': 'proof-obligation-no-longer-checks', 'errors': proof_errors,
                 'generated_facts_diff_vs_golden': golden_diffs[:50],
@@ -385,7 +406,7 @@ def run(pid, tier, seed, replay, t0, evidence_path):
             'rule': getattr(prop, 'RULE', 'distinct protocol inputs; non-trivial per the property module'),
             'samples': samples, 'outside_model_skipped': ctx.skipped, 'histogram': ctx.histogram,
             'generated_facts_changed_vs_golden': golden_diffs[:20],
-            'proof_errors': proof_errors, 'known_findings_reexhibited': sorted(known_hit),
+            'proof_errors': proof_errors, 'harness_exception': (harness_exc or '')[-1500:] or None, 'known_findings_reexhibited': sorted(known_hit),
             'notes': ctx.notes, 'leanchecker': leanchecker,
         },
         'assumptions': list(getattr(prop, 'ASSUMPTIONS', [])),
